@@ -1040,15 +1040,13 @@ pub open spec fn one_block(c0: ControlFlowGraph, c1: ControlFlowGraph) -> bool {
     proof {
         let b = *block;
         let ops = instruction.ops@;
-        assert(b.instructions@.len() == 5);
-        assert(assign_src(b, 0) == n0 && assign_src(b, 1) == z0 && assign_src(b, 2) == c0 && assign_src(b, 3) == v0);
-        assert(is_assign(b, 4) && assign_dst(b, 4) == reg_scalar(x.full_rec()));
-        assert forall|env: Env| env_sorted(env) implies #[trigger] nzcv_block_ok(ops, false, x, b, env) by {
-            assert(load_ok(ops[1], bits as nat, lhs0, env));
-            assert(load_ok(ops[2], bits as nat, rhs0, env));
-            assert(write_ok(x, result0, assign_src(b, 4), env));
-            if n0 == flag_n_form(false, lhs0, rhs0, rhs_of(n0)->Constant_0) && z0 == flag_z_form(false, lhs0, rhs0, rhs_of(z0)->Constant_0) && c0 == flag_c_form(false, lhs0, rhs0) && v0 == flag_v_form(false, lhs0, rhs0)
-                && result0 == addsub_form(false, lhs0, rhs0) {
+        // (guarded by the SHAPE of the five expressions: a changed formula then fails the named postcondition `nzcv`, not this proof block)
+        if n0 == flag_n_form(false, lhs0, rhs0, rhs_of(n0)->Constant_0) && z0 == flag_z_form(false, lhs0, rhs0, rhs_of(z0)->Constant_0) && c0 == flag_c_form(false, lhs0, rhs0) && v0 == flag_v_form(false, lhs0, rhs0)
+            && result0 == addsub_form(false, lhs0, rhs0) && b.instructions@.len() == 5 && assign_src(b, 0) == n0 && assign_src(b, 1) == z0 && assign_src(b, 2) == c0 && assign_src(b, 3) == v0 {
+            assert forall|env: Env| env_sorted(env) implies #[trigger] nzcv_block_ok(ops, false, x, b, env) by {
+                assert(load_ok(ops[1], bits as nat, lhs0, env));
+                assert(load_ok(ops[2], bits as nat, rhs0, env));
+                assert(write_ok(x, result0, assign_src(b, 4), env));
                 assert(nzcv_ok(false, eval_spec(lhs0, env), eval_spec(rhs0, env), result0, n0, z0, c0, v0, env));
             }
         }
@@ -1101,15 +1099,13 @@ pub open spec fn one_block(c0: ControlFlowGraph, c1: ControlFlowGraph) -> bool {
     proof {
         let b = *block;
         let ops = instruction.ops@;
-        assert(b.instructions@.len() == 5);
-        assert(assign_src(b, 0) == n0 && assign_src(b, 1) == z0 && assign_src(b, 2) == c0 && assign_src(b, 3) == v0);
-        assert(is_assign(b, 4) && assign_dst(b, 4) == reg_scalar(x.full_rec()));
-        assert forall|env: Env| env_sorted(env) implies #[trigger] nzcv_block_ok(ops, true, x, b, env) by {
-            assert(load_ok(ops[1], bits as nat, lhs0, env));
-            assert(load_ok(ops[2], bits as nat, rhs0, env));
-            assert(write_ok(x, result0, assign_src(b, 4), env));
-            if n0 == flag_n_form(true, lhs0, rhs0, rhs_of(n0)->Constant_0) && z0 == flag_z_form(true, lhs0, rhs0, rhs_of(z0)->Constant_0) && c0 == flag_c_form(true, lhs0, rhs0) && v0 == flag_v_form(true, lhs0, rhs0)
-                && result0 == addsub_form(true, lhs0, rhs0) {
+        // (guarded by the SHAPE of the five expressions: a changed formula then fails the named postcondition `nzcv`, not this proof block)
+        if n0 == flag_n_form(true, lhs0, rhs0, rhs_of(n0)->Constant_0) && z0 == flag_z_form(true, lhs0, rhs0, rhs_of(z0)->Constant_0) && c0 == flag_c_form(true, lhs0, rhs0) && v0 == flag_v_form(true, lhs0, rhs0)
+            && result0 == addsub_form(true, lhs0, rhs0) && b.instructions@.len() == 5 && assign_src(b, 0) == n0 && assign_src(b, 1) == z0 && assign_src(b, 2) == c0 && assign_src(b, 3) == v0 {
+            assert forall|env: Env| env_sorted(env) implies #[trigger] nzcv_block_ok(ops, true, x, b, env) by {
+                assert(load_ok(ops[1], bits as nat, lhs0, env));
+                assert(load_ok(ops[2], bits as nat, rhs0, env));
+                assert(write_ok(x, result0, assign_src(b, 4), env));
                 assert(nzcv_ok(true, eval_spec(lhs0, env), eval_spec(rhs0, env), result0, n0, z0, c0, v0, env));
             }
         }
@@ -1347,14 +1343,18 @@ pub open spec fn cb_guards_ok(x: AArch64Register, branch_if_zero: bool, test_bit
         guard_ok(taken, env, cb_taken(v, branch_if_zero, test_bit)) && guard_ok(fall, env, !cb_taken(v, branch_if_zero, test_bit)))
 }
 
+/// the shape of the two guards cbz_cbnz_tbz_tbnz builds from the register expression g
+pub open spec fn cb_shape(x: AArch64Register, g: Expression, value: Expression, test_bit: Option<nat>, ne: Expression, eq: Expression) -> bool {
+    &&& test_bit is None ==> value == g
+    &&& test_bit matches Some(b) ==> b < x.bits && value == Expression::And(Box::new(g), Box::new(rhs_of(value))) && const_is(rhs_of(value), x.bits as nat, pow2(b))
+    &&& ne == Expression::Cmpneq(Box::new(value), Box::new(rhs_of(ne))) && const_is(rhs_of(ne), x.bits as nat, 0)
+    &&& eq == Expression::Cmpeq(Box::new(value), Box::new(rhs_of(eq))) && const_is(rhs_of(eq), x.bits as nat, 0)
+}
+
 pub proof fn lemma_cb_eval(x: AArch64Register, g: Expression, value: Expression, test_bit: Option<nat>, ne: Expression, eq: Expression, env: Env)
     requires
         expr_wf(g), expr_bits(g) == x.bits, reg_read(x, env) is Val ==> eval_spec(g, env) == reg_read(x, env),
-        env_sorted(env), 1 <= x.bits <= 64,
-        test_bit is None ==> value == g,
-        test_bit matches Some(b) ==> b < x.bits && value == Expression::And(Box::new(g), Box::new(rhs_of(value))) && const_is(rhs_of(value), x.bits as nat, pow2(b)),
-        ne == Expression::Cmpneq(Box::new(value), Box::new(rhs_of(ne))) && const_is(rhs_of(ne), x.bits as nat, 0),
-        eq == Expression::Cmpeq(Box::new(value), Box::new(rhs_of(eq))) && const_is(rhs_of(eq), x.bits as nat, 0),
+        env_sorted(env), 1 <= x.bits <= 64, cb_shape(x, g, value, test_bit, ne, eq),
     ensures
         expr_wf(ne) && expr_wf(eq) && expr_bits(ne) == 1 && expr_bits(eq) == 1,
         reg_read(x, env) matches EvalR::Val(w, v) ==> guard_ok(ne, env, cb_taken(v, false, test_bit)) && guard_ok(eq, env, cb_taken(v, true, test_bit)),
@@ -1434,9 +1434,10 @@ pub proof fn lemma_cb_eval(x: AArch64Register, g: Expression, value: Expression,
     let ghost eq0 = cond_false;
     proof {
         let g = if test_bit { lhs_of(val0) } else { val0 };
-        assert forall|env: Env| env_sorted(env) implies (#[trigger] reg_read(x, env) matches EvalR::Val(w, v) ==>
+        assert forall|env: Env| (env_sorted(env) && cb_shape(x, g, val0, tb, ne0, eq0)) implies (#[trigger] reg_read(x, env) matches EvalR::Val(w, v) ==>
             guard_ok(ne0, env, cb_taken(v, false, tb)) && guard_ok(eq0, env, cb_taken(v, true, tb))) by {
             assert(load_ok(instruction.ops@[0], bits as nat, g, env));
+            // (guarded by the shape of the guards: a changed mask / comparison then fails the named postcondition `condition`)
             lemma_cb_eval(x, g, val0, tb, ne0, eq0, env);
         }
     }
@@ -1879,9 +1880,10 @@ pub open spec fn ldst_pre(ops: Seq<bad64::Operand>) -> bool {
         let b = *block;
         let ops = instruction.ops@;
         let src = assign_src(b, 1);
-        assert forall|env: Env| env_sorted(env) implies #[trigger] ld_assign_ok(x, t0, 8, Some(bits as nat), src, env) by {
-            assert(write_ok(x, ext0, src, env));
-            if ext0 == Expression::Sext(bits, Box::new(Expression::Scalar(t0))) {
+        // (guarded by the shape of the extension: a changed extension then fails the named postcondition `load`)
+        if ext0 == Expression::Sext(bits, Box::new(Expression::Scalar(t0))) {
+            assert forall|env: Env| env_sorted(env) implies #[trigger] ld_assign_ok(x, t0, 8, Some(bits as nat), src, env) by {
+                assert(write_ok(x, ext0, src, env));
                 assert(eval_spec(ext0, env) == sext_spec(bits as nat, eval_spec(Expression::Scalar(t0), env)));
             }
         }
@@ -1923,9 +1925,10 @@ pub open spec fn ldst_pre(ops: Seq<bad64::Operand>) -> bool {
         let b = *block;
         let ops = instruction.ops@;
         let src = assign_src(b, 1);
-        assert forall|env: Env| env_sorted(env) implies #[trigger] ld_assign_ok(x, t0, 16, Some(bits as nat), src, env) by {
-            assert(write_ok(x, ext0, src, env));
-            if ext0 == Expression::Sext(bits, Box::new(Expression::Scalar(t0))) {
+        // (guarded by the shape of the extension: a changed extension then fails the named postcondition `load`)
+        if ext0 == Expression::Sext(bits, Box::new(Expression::Scalar(t0))) {
+            assert forall|env: Env| env_sorted(env) implies #[trigger] ld_assign_ok(x, t0, 16, Some(bits as nat), src, env) by {
+                assert(write_ok(x, ext0, src, env));
                 assert(eval_spec(ext0, env) == sext_spec(bits as nat, eval_spec(Expression::Scalar(t0), env)));
             }
         }
@@ -1970,9 +1973,10 @@ pub open spec fn ldst_pre(ops: Seq<bad64::Operand>) -> bool {
         let b = *block;
         let ops = instruction.ops@;
         let src = assign_src(b, 1);
-        assert forall|env: Env| env_sorted(env) implies #[trigger] ld_assign_ok(x, t0, 32, Some(bits as nat), src, env) by {
-            assert(write_ok(x, ext0, src, env));
-            if ext0 == Expression::Sext(bits, Box::new(Expression::Scalar(t0))) {
+        // (guarded by the shape of the extension: a changed extension then fails the named postcondition `load`)
+        if ext0 == Expression::Sext(bits, Box::new(Expression::Scalar(t0))) {
+            assert forall|env: Env| env_sorted(env) implies #[trigger] ld_assign_ok(x, t0, 32, Some(bits as nat), src, env) by {
+                assert(write_ok(x, ext0, src, env));
                 assert(eval_spec(ext0, env) == sext_spec(bits as nat, eval_spec(Expression::Scalar(t0), env)));
             }
         }
@@ -2028,13 +2032,16 @@ pub open spec fn store_src(b: Block) -> Expression { match b.instructions@[0].op
         let b = *block;
         let ops = instruction.ops@;
         let src = store_src(b);
-        assert forall|env: Env| env_sorted(env) implies #[trigger] st_val_ok(x, bits as nat, src, env) by {
-            assert(load_ok(ops[0], bits as nat, v0, env));
-            lemma_eval_wf_val(v0, env);
-            reveal(bv_trun);
-            if let EvalR::Val(w, v) = reg_read(x, env) {
-                if bits as nat == w { lemma_small_mod(v, pow2(w)); }
-                if src == Expression::Trun(bits as nat as usize, Box::new(v0)) { assert(eval_spec(src, env) == trun_spec(bits as nat, eval_spec(v0, env))); }
+        // (guarded by the shape of the stored expression: a changed truncation then fails the named postcondition `store`)
+        if src == v0 || src == Expression::Trun(bits as nat as usize, Box::new(v0)) {
+            assert forall|env: Env| env_sorted(env) implies #[trigger] st_val_ok(x, bits as nat, src, env) by {
+                assert(load_ok(ops[0], bits as nat, v0, env));
+                lemma_eval_wf_val(v0, env);
+                reveal(bv_trun);
+                if let EvalR::Val(w, v) = reg_read(x, env) {
+                    if bits as nat == w { lemma_small_mod(v, pow2(w)); }
+                    if src == Expression::Trun(bits as nat as usize, Box::new(v0)) { assert(eval_spec(src, env) == trun_spec(bits as nat, eval_spec(v0, env))); }
+                }
             }
         }
         assert(st_block_with(ops, x, bits as nat, b, a0, se0));
@@ -2070,13 +2077,16 @@ pub open spec fn store_src(b: Block) -> Expression { match b.instructions@[0].op
         let b = *block;
         let ops = instruction.ops@;
         let src = store_src(b);
-        assert forall|env: Env| env_sorted(env) implies #[trigger] st_val_ok(x, 8, src, env) by {
-            assert(load_ok(ops[0], 32, v0, env));
-            lemma_eval_wf_val(v0, env);
-            reveal(bv_trun);
-            if let EvalR::Val(w, v) = reg_read(x, env) {
-                if 8 == w { lemma_small_mod(v, pow2(w)); }
-                if src == Expression::Trun(8 as usize, Box::new(v0)) { assert(eval_spec(src, env) == trun_spec(8, eval_spec(v0, env))); }
+        // (guarded by the shape of the stored expression: a changed truncation then fails the named postcondition `store`)
+        if src == v0 || src == Expression::Trun(8 as usize, Box::new(v0)) {
+            assert forall|env: Env| env_sorted(env) implies #[trigger] st_val_ok(x, 8, src, env) by {
+                assert(load_ok(ops[0], 32, v0, env));
+                lemma_eval_wf_val(v0, env);
+                reveal(bv_trun);
+                if let EvalR::Val(w, v) = reg_read(x, env) {
+                    if 8 == w { lemma_small_mod(v, pow2(w)); }
+                    if src == Expression::Trun(8 as usize, Box::new(v0)) { assert(eval_spec(src, env) == trun_spec(8, eval_spec(v0, env))); }
+                }
             }
         }
         assert(st_block_with(ops, x, 8, b, a0, se0));
@@ -2112,13 +2122,16 @@ pub open spec fn store_src(b: Block) -> Expression { match b.instructions@[0].op
         let b = *block;
         let ops = instruction.ops@;
         let src = store_src(b);
-        assert forall|env: Env| env_sorted(env) implies #[trigger] st_val_ok(x, 16, src, env) by {
-            assert(load_ok(ops[0], 32, v0, env));
-            lemma_eval_wf_val(v0, env);
-            reveal(bv_trun);
-            if let EvalR::Val(w, v) = reg_read(x, env) {
-                if 16 == w { lemma_small_mod(v, pow2(w)); }
-                if src == Expression::Trun(16 as usize, Box::new(v0)) { assert(eval_spec(src, env) == trun_spec(16, eval_spec(v0, env))); }
+        // (guarded by the shape of the stored expression: a changed truncation then fails the named postcondition `store`)
+        if src == v0 || src == Expression::Trun(16 as usize, Box::new(v0)) {
+            assert forall|env: Env| env_sorted(env) implies #[trigger] st_val_ok(x, 16, src, env) by {
+                assert(load_ok(ops[0], 32, v0, env));
+                lemma_eval_wf_val(v0, env);
+                reveal(bv_trun);
+                if let EvalR::Val(w, v) = reg_read(x, env) {
+                    if 16 == w { lemma_small_mod(v, pow2(w)); }
+                    if src == Expression::Trun(16 as usize, Box::new(v0)) { assert(eval_spec(src, env) == trun_spec(16, eval_spec(v0, env))); }
+                }
             }
         }
         assert(st_block_with(ops, x, 16, b, a0, se0));
